@@ -4,8 +4,10 @@ power-formula generators (`timeseries/formula_engine/_formula_generators/*.py`) 
 
 Graphs are TREES: a grid connection point with successors; meters nested to any depth; battery
 inverters with their batteries (a list of battery ids); PV inverters, EV chargers and CHPs as leaves.
-Every component has exactly one predecessor, so the `visited` test of `dfs` never fires and is not
-modelled; DAGs that are not trees (a meter or a battery with two predecessors) are outside the model.
+Every meter / inverter / device has exactly one predecessor, so the `visited` test of `dfs` never fires
+(`dfsV` models it and it is proved dead code); a BATTERY may hang on several inverters (its id is then
+listed by several `batInv` nodes — chained DC wiring); a meter or device with two predecessors is outside
+the model.  `Live` (end of file) models one long-lived graph object under `refresh_from`.
 
 Every table the predicates / generators depend on is imported from `Frequenz.Extracted.Graph`
 (regenerated from the Python source on every run): the (category, inverter type) tests behind
@@ -583,5 +585,72 @@ end
 
 /-- Regime of the sub-pool finding: some dedicated meter is shared between the pool and other devices. -/
 def subPoolSharedMeter (sel : Node → Bool) (g : Grid) : Bool := !poolClosedL sel (topPos g) g.succ
+
+/-! ## One long-lived graph object: `refresh_from` / `generate`
+
+The application keeps ONE `_MicrogridComponentGraph`; `refresh_from(components, connections)` replaces its
+topology and the generators are run on it again and again.  `Live` is that object: the topology it holds
+now, and the topology on which verdicts remembered from earlier queries were computed (if the source
+remembers any: `predicatesReadCurrentGraphOnly = false`; the pinned source remembers nothing).  A battery
+that hangs on several inverters is a battery id listed by several `batInv` nodes. -/
+
+/-- What is asked of the generators in one round: the explicit (sub-)pools. -/
+structure Request where
+  bat : Option (List Nat)
+  pv : Option (List Nat)
+  ev : Option (List Nat)
+
+/-- Everything generated in one round (the lines of `Drivers/Graph.lean`). -/
+structure Generated where
+  grid : Formula
+  consumer : Formula
+  producer : Formula
+  battery : Formula
+  pvDfs : Formula
+  pv : Formula
+  ev : Formula
+  chp : Formula
+  batterySub : Option Formula
+  pvSub : Option Formula
+  evSub : Option Formula
+
+def generateAll (g : Grid) (r : Request) : Generated :=
+  { grid := gridFormula g, consumer := consumerFormula g, producer := producerFormula g,
+    battery := batteryFormula g (allBatsL g.succ), pvDfs := pvFormula g none,
+    pv := pvFormula g (some (idsWhereL Node.isPv g.succ)), ev := evFormula (idsWhereL Node.isEv g.succ),
+    chp := chpFormula g, batterySub := r.bat.map (batteryFormula g),
+    pvSub := r.pv.map (fun ids => pvFormula g (some ids)), evSub := r.ev.map evFormula }
+
+structure Live where
+  /-- the topology installed by the last `refresh_from` -/
+  topo : Grid
+  /-- the topology the remembered verdicts stem from (`none`: nothing was queried yet) -/
+  memo : Option Grid
+
+inductive Event where
+  | refresh (g : Grid)
+  | generate (r : Request)
+
+/-- The topology the classification predicates answer from. -/
+def Live.view (l : Live) : Grid :=
+  if predicatesReadCurrentGraphOnly then l.topo else l.memo.getD l.topo
+
+/-- `refresh_from` swaps the topology and resets nothing else; a query leaves its verdicts behind. -/
+def Live.step (l : Live) : Event → Live × Option Generated
+  | .refresh g => (⟨g, l.memo⟩, none)
+  | .generate r => (⟨l.topo, some (l.memo.getD l.topo)⟩, some (generateAll l.view r))
+
+def Live.run (l : Live) : List Event → List Generated
+  | [] => []
+  | e :: es =>
+    match (l.step e).2 with
+    | some o => o :: (l.step e).1.run es
+    | none => (l.step e).1.run es
+
+/-- The history-free reference: only the last topology matters. -/
+def runFresh (g : Grid) : List Event → List Generated
+  | [] => []
+  | .refresh g' :: es => runFresh g' es
+  | .generate r :: es => generateAll g r :: runFresh g es
 
 end Graph
